@@ -1,4 +1,5 @@
 use super::InfixFilter;
+use crate::util::{eprint_err, ErrorCode};
 use crate::{Cleanup, FileSpec, LogfileSelector};
 #[cfg(feature = "compress")]
 use std::fs::File;
@@ -223,7 +224,9 @@ pub(super) fn start_cleanup_thread(
                     &infix_filter_cp,
                     writes_direct,
                 )
-                .ok();
+                .unwrap_or_else(|e| {
+                    eprint_err(ErrorCode::LogFile, "cleanup of log files failed", &e);
+                });
                 #[cfg(flexi_logger_verif)]
                 crate::verif_hooks::sync_op(crate::verif_hooks::Op::Recv(
                     "cleanup_chan",
